@@ -286,7 +286,13 @@ def shared_jobs(rng, count):
             continue
         w = r2.choice([2, 2, 3])
         stop = ('exhaust', 0) if r2.random() < 0.75 else ('close', r2.randint(0, 3))
-        out.append(({'api': api, 'w': w, 'buf': r2.randint(w, 4), 'prog': p,
+        fails, kind, cfe = [], 'filter', 0
+        if r2.random() < 0.3:       # the mapped function fails on some value(s)
+            fails = r2.sample(range(1, 7), r2.choice([1, 1, 2]))
+            kind = r2.choice(['filter', 'other'])
+            cfe = 1 if (kind == 'filter' and api == 'prefetch' and r2.random() < 0.6) else 0
+        out.append(({'api': api, 'w': w, 'buf': r2.randint(w, 4), 'prog': p, 'fn_fail': fails,
+                     'fail_kind': kind, 'cfe': cfe,
                      'stop': stop[0], 'stop_k': stop[1]}, r2.randrange(1 << 30)))
     return out
 
@@ -371,7 +377,7 @@ STP_FIELDS = ('id', 'n', 'buf', 'fail_at', 'fail_cls', 'stop', 'stop_k', 'events
               'end', 'alive', 'deadlock')
 LPM_FIELDS = STP_FIELDS + ('w', 'fn_fail')
 DS_FIELDS = ('id', 'api', 'n', 'buf', 'w', 'fn_fail', 'fail_kind', 'cfe', 'stop', 'stop_k', 'events',
-             'delivered', 'end', 'alive', 'deadlock', 'len_ok', 'shape', 'seq')
+             'delivered', 'end', 'alive', 'deadlock', 'len_ok', 'shape', 'seq', 'seq_out')
 
 
 def explore(tier, res):
